@@ -5,7 +5,7 @@ CONSTANTS
   OutLen = 2
   NSet <- MC_NSet
   KSet <- MC_KSet
-  MaxLen = 4
+  MaxLen = 5
   RateVals <- MC_RateVals
   NVals <- MC_NVals
   DirVals <- MC_DirVals
